@@ -74,6 +74,12 @@ CHECKS = {
         note="Corrupt rows (invalid JSON, wrong arity) are outside the property's list; identical rows are one trace.",
         ref="DESIGN.md section 4 C10",
     ),
+    "C02": dict(
+        technique="explicit-state BFS over driver-operation sequences on live generator/coroutine frames + exhaustive enumeration of call shapes, real CallTracer under real profile events, judged by a sys.monitoring ground-truth recorder (E3 + E1)",
+        text="Every function kind x parameter list x exit kind x call style, nesting/recursion/propagation scenarios and twin modules are run under the real tracer; all sequences of next/send/throw/close/drop on every single and ordered pair of eight generator/coroutine templates are explored breadth-first by replay, with the tracer's whole mutable state in the state key. After every driver operation the logged traces must equal the frames the interpreter reports as completed, in order and content, and CallTracer.traces must hold exactly the unfinished frames.",
+        note="Trusts CPython 3.12's sys.monitoring events as ground truth; nested functions/closures/lambdas are MAY-log; named parameters exclude *args/**kwargs.",
+        ref="DESIGN.md section 4 C02",
+    ),
 }
 
 NOT_YET = {}
